@@ -15,7 +15,9 @@ TECHNIQUE = ("Coq proofs (induction over histories, invariant between session st
 LEVEL_TEXT = ("c16_consecutive: for every schema, role, persister, start number and every history START;op* of plain "
               "SEND/BATCH/CLOCK operations (any message type but SequenceReset, any SOH-free field contents, no custom "
               "seqnum/no_increment/preset MsgSeqNum) the modelled wire carries start, start+1, ... across single and "
-              "batched sends and the control record equals (next_send, next_recv) after every send. c16_unique / "
+              "batched sends and the control record equals (next_send, next_recv) after every send. c16_restart: the same "
+              "with RESTART operations anywhere (new session on the same persister files / a fresh memory persister): "
+              "numbering resumes at the recovered or configured number. c16_unique / "
               "c16_increasing: acceptance by the oracle implies pairwise different, strictly increasing numbers of new "
               "messages. c16_control_inbound_partial: after every normal return of Session::process the control record "
               "is current. Refuted (witnesses on the faithful model, confirmed on the real code): custom seqnum / "
